@@ -107,7 +107,8 @@ F = {
     "lazy_indented": lambda n: "a\n" + "     b\n" * n,
     "table_rows": lambda n: "a|b\n-|-\n" + "c|d\n" * n,
     "table_cols": lambda n: "|".join("a" for _ in range(n)) + "\n" + "|".join("-" for _ in range(n)) + "\n",
-    "table_sparse_rows": lambda n: "|".join("a" for _ in range(max(2, int(n**0.5) * 3))) + "\n" + "|".join("-" for _ in range(max(2, int(n**0.5) * 3))) + "\n" + "b\n" * (max(2, int(n**0.5) * 3)),
+    # k columns in the header, k one-cell rows: the missing k*(k-1) cells are filled in by the parser
+    "table_sparse_square": lambda n: "|".join("a" for _ in range(max(2, n))) + "\n" + "|".join("-" for _ in range(max(2, n))) + "\n" + "b\n" * max(2, n),
     "table_header_only_lines": lambda n: "a|b\n" * n,
     "table_escaped_pipes": lambda n: "a|b\n-|-\n" + "\\|" * n + "\n",
     "refdefs_consecutive": lambda n: "".join("[r%d]: /u\n" % i for i in range(n)),
@@ -149,6 +150,8 @@ F = {
     "nul_chars": lambda n: "\0" * n,
     "crlf_lines": lambda n: "a\r\n" * n,
 }
+# families whose guard only engages beyond a certain size are measured from there on
+MIN_L = {"table_sparse_square": 3000}
 NEST = {
     "bq": lambda d: ">" * d + " a\n",
     "list": lambda d: "- " * d + "a\n",
@@ -175,7 +178,14 @@ class CostExplosion(BaseException):
     pass
 
 
-CALL_LIMIT = 6 * 10**7  # deterministic abort: far above any linear family at the sizes used
+CALL_LIMIT = 3 * 10**8  # absolute ceiling of one measurement
+CASE_TIMEOUT_S = 1800  # the wall-clock guard of the runner is not a verdict; measurements are bounded by call budgets
+
+
+def call_budget(length: int) -> int:
+    """Deterministic abort threshold of one measurement: 2500 calls per character (the costliest linear family of
+    the catalogue needs ~850) - beyond it the cost is reported as an explosion instead of being measured to the end."""
+    return min(CALL_LIMIT, 2500 * (length + 400))
 
 
 class Cost:
@@ -298,7 +308,7 @@ def growth(md, f, L: int, res: Res, name: str, preset: str) -> None:
 
     def measure(k):
         s = sized(f, L * k)
-        c, _ = cost(md, s, min(CALL_LIMIT, 40000 * (len(s) + 100)))
+        c, _ = cost(md, s, call_budget(len(s)))
         pts.append((len(s), c))
 
     class _Stop(Exception):
@@ -309,7 +319,7 @@ def growth(md, f, L: int, res: Res, name: str, preset: str) -> None:
         if pts[-1][1] < 0:
             res.fail(f"recursion-error:{name}:{preset}", f"{name}: RecursionError at length {pts[-1][0]}")
             return
-        if pts[-1][1] > min(CALL_LIMIT, 40000 * (pts[-1][0] + 100)):
+        if pts[-1][1] > call_budget(pts[-1][0]):
             res.nt = True
             res.fail(f"cost-explosion:{name}:{preset}", f"{name}: more than {pts[-1][1] - 1} library calls for {pts[-1][0]} characters (deterministic call budget exceeded); (length, calls) so far {pts}")
             return
@@ -344,7 +354,7 @@ def check(case) -> Res:
     res.cls.append(kind)
     md = _md(case["preset"])
     if kind == "catalogue":
-        growth(md, F[case["family"]], case["L"], res, case["family"], case["preset"])
+        growth(md, F[case["family"]], max(case["L"], MIN_L.get(case["family"], 0)), res, case["family"], case["preset"])
         return res
     if kind == "generated":
         u, u2 = case["unit"], case["unit2"]
